@@ -32,11 +32,27 @@ def cases(tier, seed):
     pool = ["x", "y", "z", "h", "s", "t", "cx", "cz", "ccx", "mcx", "swap", "cp", "p", "barrier", "mcz", "mctrlx", "x", "cx", "h"]
     for _ in range(n):
         yield {"kind": "circ", "circ": GC.rand_circuit(rng, nq=rng.randint(1, 5), ngates=rng.randint(1, 10), pool=pool, p_classical=0.3), "origin": "random"}
+    # qubit maps whose insertion order differs from index order, with aliases (late renames, promoted names)
+    for _ in range(120 if tier == "quick" else 1500):
+        c = GC.rand_circuit(rng, nq=rng.randint(2, 5), ngates=rng.randint(1, 8), pool=pool, p_classical=0.5)
+        nq = c["nq"]
+        ren = []
+        for q in rng.sample(range(nq), rng.randint(1, nq)):
+            ren.append(["rename", q, f"n{q}_{rng.randint(0, 9)}"])
+        for _ in range(rng.randint(0, 2)):
+            ren.append(["alias", rng.randrange(nq), f"al{rng.randint(0, 99)}"])
+        rng.shuffle(ren)
+        yield {"kind": "circ", "circ": c, "rename": ren, "origin": "renamed"}
     from ..gen import programs as P
 
     pg = P.PG(rng, P.small_cfg(max_bits=3, depth=2, stmts=1))
     for _ in range(40 if tier == "quick" else 300):
         yield {"kind": "compiled", "src": pg.program()["src"], "origin": "compiled"}
+    # larger compiled functions: only the text exporters are checked beyond 7 qubits
+    pg2 = P.PG(rng, P.small_cfg(max_bits=5, depth=3, stmts=3))
+    for _ in range(60 if tier == "quick" else 600):
+        yield {"kind": "compiled", "src": pg2.program()["src"], "origin": "compiled_large"}
+    yield {"kind": "compiled", "src": "def f(a: Qint[2], b: Qint[2]) -> Qint[2]:\n    c = a + b\n    d = c + a\n    return d if a > b else c\n", "origin": "compiled_large"}
     yield {"kind": "compiled", "src": "def f(a: bool, b: bool) -> bool:\n    c = a and b\n    return c\n", "origin": "compiled"}
     yield {"kind": "algo", "origin": "algorithm"}
 
@@ -71,16 +87,28 @@ def check(case):
         key, sample = "grover(a==2)", "Grover(qlassf('a == 2')).circuit()"
     else:
         qc = GC.build(case["circ"], name="qc")
-        key, sample = str(case["circ"]), case["circ"]
+        for op, q, nm in case.get("rename", []):
+            if op == "rename":
+                try:
+                    del qc[qc.get_key_by_index(q)]
+                except Exception:
+                    pass
+                qc[nm] = q
+            else:
+                qc[nm] = q
+        key, sample = str(case["circ"]) + str(case.get("rename")), dict(case["circ"], rename=case.get("rename"))
     nq = qc.num_qubits
-    if nq > 7 or nq == 0:
+    if nq > 40 or nq == 0:
         return {"status": "skipped", "key": key}
     real = [(g, w, p) for g, w, p in qc.gates if revsim.gate_kind(g) != "nop"]
     has_barrier = len(real) != len(qc.gates)
-    try:
-        U = statevec.unitary(qc.gates, nq)
-    except statevec.UnknownGate:
-        return {"status": "skipped", "key": key}
+    text_only = nq > 7
+    U = None
+    if not text_only:
+        try:
+            U = statevec.unitary(qc.gates, nq)
+        except statevec.UnknownGate:
+            return {"status": "skipped", "key": key}
     fails, cnt = [], {}
 
     def fail(kind, msg, pred=None):
@@ -88,6 +116,8 @@ def check(case):
 
     # ---- qiskit
     try:
+        if text_only:
+            raise ImportError("text only")
         from qiskit.quantum_info import Operator
 
         for mode in ("circuit", "gate"):
@@ -106,6 +136,8 @@ def check(case):
         pass
     # ---- cirq
     try:
+        if text_only:
+            raise ImportError("text only")
         import cirq
 
         for mode in ("circuit", "gate"):
@@ -134,7 +166,7 @@ def check(case):
     except ImportError:
         pass
     # ---- sympy (small circuits only: symbolic matrices)
-    if nq <= 4 and len(real) <= 8:
+    if nq <= 4 and len(real) <= 8 and not text_only:
         try:
             from sympy.physics.quantum.qapply import qapply
             from sympy.physics.quantum.represent import represent
